@@ -99,6 +99,19 @@ pub fn exec(case: &SerCase) -> RunOut {
         }
         out.count("values_with_a_query_history", 1);
     }
+    if case.qseed & 2 == 0 {
+        // a history over two values: this thread has just serialized and reloaded another, larger value of the same
+        // type (scratch state kept outside the values - a thread-local buffer, a global table - shows up here, inside
+        // one case, so that the replay does not depend on what the worker process did before)
+        if let Some(other) = crate::thr::reversed_spec(&case.spec) {
+            let _ = catch(|| {
+                let z = other.build();
+                let bytes = ser_vec(z.as_ref(), case.cfg)?;
+                z.de_slice(case.cfg, &bytes).map(|_| ())
+            });
+            out.count("two_value_histories", 1);
+        }
+    }
     let bytes0 = match catch(|| ser_vec(x.as_ref(), case.cfg)) {
         Ok(Ok(b)) => b,
         Ok(Err(e)) => {
